@@ -58,7 +58,7 @@ def _owner(v):
     return "2:builtin-instance"
   if v.builtin:
     return "builtin-instance" if v.instance else "builtin-object"
-  return "user-getattr-instance" if v.cls == "GA" else "user-instance"
+  return "user-getattr-instance" if v.cls in ground.GETATTR_CLASSES else "user-instance"
 
 
 def _stmt(kind, expr, op, classes, adv, level, form="lit", owner=None):
@@ -71,7 +71,7 @@ def _stmt(kind, expr, op, classes, adv, level, form="lit", owner=None):
 
 def statements(tier):
   V = ground.C14_VALUES
-  D = ground.C14_DERIVED if tier == "thorough" else []
+  D = ground.C14_DERIVED_QUICK + (ground.C14_DERIVED if tier == "thorough" else [])
   out = []
   basic = ground.BASIC_BINOPS
   ops = basic + (ground.MORE_BINOPS if tier == "thorough" else [])
@@ -108,7 +108,9 @@ def statements(tier):
       if a.named:
         out.append(_stmt("subscript", f"{a.named}[{k}]", "[]", [_label(a), kcls], adv, level,
                          "named"))
-    inst_scope = level == 1 and a.instance
+    # a class with __getattr__ has no statically missing attribute: a failure is
+    # raised inside its __getattr__ body, not by the lookup (false alarms only)
+    inst_scope = level == 1 and a.instance and a.cls not in ground.GETATTR_CLASSES
     for name in ground.ATTRS:
       # `1.real` does not tokenise; parenthesise every operand
       out.append(_stmt("attr", f"({a.expr}).{name}", name, [_label(a)], inst_scope, level,
